@@ -11,6 +11,7 @@ every real input.
 import Daac.Proofs.BuildCor
 import Daac.Proofs.Total
 import Daac.Proofs.Total2
+import Daac.Proofs.Positions
 namespace Daac.Props.C10
 open Daac
 variable {V : Type}
@@ -89,5 +90,76 @@ theorem valid_ok_or_scale (variant : Variant) (cfg : Cfg) (P : List (LPat V)) (h
     (hvalid : P ≠ [] ∧ (∀ p ∈ P, p.key ≠ []) ∧ (P.map (·.key)).Nodup) :
     (∃ da, buildDA variant cfg P = .ok da) ∨ buildDA variant cfg P = .error .automatonScale :=
   buildDA_valid_ok_or_scale variant cfg P hk hnfb hbytes hsz hvalid
+
+/-! ### The entry point `build`: values are the input positions -/
+
+/-- Well-formed raw input of `build`: byte length zero iff no labels; labels are bytes for the
+byte-wise builder and below `u32::MAX - 1` (every Unicode scalar is) for the char-wise one. -/
+def InputOk (variant : Variant) (K : List (List Nat × Nat)) : Prop :=
+  (∀ kb ∈ K, (kb.2 = 0 ↔ kb.1 = [])) ∧
+  (variant = .bytewise → ∀ kb ∈ K, ∀ c ∈ kb.1, c < 256) ∧
+  (variant = .charwise → ∀ kb ∈ K, ∀ c ∈ kb.1, c + 1 < 4294967295)
+
+/-- **`build_positions_ok_iff`** — the second construction entry point, full statement of C10:
+`build` succeeds precisely when every position converts to the value type AND the collection is
+valid; then it is `build_with_values` on the collection whose i-th pattern carries the converted
+position i (so every search theorem applies with value = position, property C06). -/
+theorem build_positions_ok_iff (conv : Nat → Option V) (variant : Variant) (cfg : Cfg)
+    (K : List (List Nat × Nat)) (hin : InputOk variant K) (hnfb : 1 ≤ cfg.nfb)
+    (hlim : buildPositions conv variant cfg K ≠ .error .automatonScale) :
+    (∃ da, buildPositions conv variant cfg K = .ok da) ↔
+      ((∀ j, j < K.length → conv j ≠ none) ∧
+        K ≠ [] ∧ (∀ kb ∈ K, kb.1 ≠ []) ∧ (K.map (·.1)).Nodup) := by
+  obtain ⟨hk, hb, hs⟩ := hin
+  by_cases hall : ∀ j, j < K.length → conv j ≠ none
+  · obtain ⟨P, hP, hlen, hmap, _⟩ := buildPositions_eq conv variant cfg K hall
+    have hmem : ∀ p ∈ P, (p.key, p.blen) ∈ K := fun p hp => by
+      rw [← hmap]; exact List.mem_map.mpr ⟨p, hp, rfl⟩
+    have hkeys : P.map (·.key) = K.map (·.1) := by rw [← hmap]; simp
+    have hkO : keysOk P := fun p hp => hk _ (hmem p hp)
+    have hbytes : variant = .bytewise → ∀ p ∈ P, ∀ c ∈ p.key, c < 256 :=
+      fun hv p hp c hc => hb hv _ (hmem p hp) c hc
+    have hsz : variant = .charwise → tableLen P < 4294967295 :=
+      fun hv => tableLen_lt_of_labels P _ (by omega) (fun p hp c hc => hs hv _ (hmem p hp) c hc)
+    rw [hP] at hlim ⊢
+    rw [buildDA_ok_iff variant cfg P hkO hnfb hbytes hsz hlim, hkeys]
+    have e1 : P ≠ [] ↔ K ≠ [] := by
+      constructor
+      · intro h hK; subst hK; exact h (List.length_eq_zero_iff.mp (by simpa using hlen))
+      · intro h hP'; subst hP'; exact h (List.length_eq_zero_iff.mp (by simpa using hlen.symm))
+    have e2 : (∀ p ∈ P, p.key ≠ []) ↔ (∀ kb ∈ K, kb.1 ≠ []) := by
+      constructor
+      · intro h kb hkb
+        rw [← hmap] at hkb
+        obtain ⟨p, hp, rfl⟩ := List.mem_map.mp hkb
+        exact h p hp
+      · intro h p hp; exact h _ (hmem p hp)
+    rw [e1, e2]
+    exact ⟨fun h => ⟨hall, h⟩, fun h => h.2⟩
+  · constructor
+    · rintro ⟨da, hda⟩
+      have : ∃ j, j < K.length ∧ conv j = none := by
+        false_or_by_contra; rename_i hne
+        exact hall (fun j hj hn => hne ⟨j, hj, hn⟩)
+      obtain ⟨j, hj, hn⟩ := this
+      unfold buildPositions at hda
+      have := (convAll_none_iff conv K 0).mpr ⟨j, hj, by simpa using hn⟩
+      rw [this] at hda; cases hda
+    · intro h; exact absurd h.1 hall
+
+/-- `build` returns `InvalidConversion` exactly when some position does not convert — checked
+before anything else, so also for collections that are invalid in other ways; never a panic. -/
+theorem build_positions_conv_err (conv : Nat → Option V) (variant : Variant) (cfg : Cfg)
+    (K : List (List Nat × Nat)) (j : Nat) (hj : j < K.length) (hn : conv j = none) :
+    buildPositions conv variant cfg K = .error .invalidConversion := by
+  unfold buildPositions
+  rw [(convAll_none_iff conv K 0).mpr ⟨j, hj, by simpa using hn⟩]
+
+/-- Non-vacuity: `u8`-like conversion (positions 0..255 convert). 257 one-label patterns are
+rejected with InvalidConversion whatever they are. -/
+example (K : List (List Nat × Nat)) (h : 256 < K.length) (variant : Variant) (cfg : Cfg) :
+    buildPositions (fun i => if i < 256 then some i else none) variant cfg K
+      = .error .invalidConversion :=
+  build_positions_conv_err _ variant cfg K 256 h (by simp)
 
 end Daac.Props.C10
